@@ -198,6 +198,16 @@ class Engine:
             return None, st
         return None, None
 
+    def resolve_union(self, st, v):
+        """fork an int|bytes union value into its two Python types: list of (state, SInt | SBytes)"""
+        a, b = self.split(st, v.is_int)
+        out = []
+        if a is not None:
+            out.append((a, mk_int(v.iv)))
+        if b is not None:
+            out.append((b, mk_bytes(v.bv)))
+        return out
+
     def oblige(self, st, goal, kind, where='', info=None):
         """record a proof obligation pc => goal, then assume it"""
         if goal is True or (not isinstance(goal, bool) and z3.is_true(goal)):
@@ -262,6 +272,8 @@ class Engine:
             return z3.Length(v.l1) > 0
         if isinstance(v, SStr):
             return True    # formatted strings in this code base are never empty; only used for messages
+        if isinstance(v, SUnionIB):
+            return z3.If(v.is_int, v.iv != 0, z3.Length(v.bv) > 0)
         raise Unsupported('truth of %r' % (v,))
 
     # ------------------------------------------------------------------ expression evaluation
@@ -783,6 +795,20 @@ class Engine:
                 yield st, False
                 return
             yield st, False
+            return
+        if isinstance(a, SUnionIB) or isinstance(b, SUnionIB):
+            # int-or-bytes union: equal iff both sides have the same Python type and the same value (no fork needed)
+            x, y = (a, b) if isinstance(a, SUnionIB) else (b, a)
+            if isinstance(y, SUnionIB):
+                yield st, mk_bool(z3.Or(z3.And(x.is_int, y.is_int, x.iv == y.iv), z3.And(z3.Not(x.is_int), z3.Not(y.is_int), x.bv == y.bv)))
+            elif is_intlike(y):
+                yield st, mk_bool(z3.And(x.is_int, x.iv == zint(y)))
+            elif is_byteslike(y):
+                yield st, mk_bool(z3.And(z3.Not(x.is_int), x.bv == zbytes(y)))
+            elif isinstance(y, (SOpaque, Ref)):
+                raise Unsupported('== between an int|bytes union and an object')
+            else:
+                yield st, False
             return
         if isinstance(a, SOpaque) or isinstance(b, SOpaque):
             if isinstance(a, SOpaque) and isinstance(b, SOpaque):
